@@ -62,6 +62,8 @@ func main() {
 		cmdDump(os.Args[2:])
 	case "oneshot":
 		cmdOneshot()
+	case "coldcase":
+		cmdColdCase()
 	case "gen":
 		cmdGen(os.Args[2:])
 	case "try":
